@@ -388,6 +388,14 @@ def cases(tier, seed):
     for lo in range(0, len(pairs), chunk):
         yield {"kind": "pairs", "pairs": [[names[i], names[j], x] for i, j, x in pairs[lo:lo + chunk]], "mesh": rich_mesh(rng, 30),
                "mesh_b": rich_mesh(rng, 30), "source": SOURCES[(lo // chunk) % 4], "source_b": SOURCES[(lo // chunk + 1) % 4], "sseed": int(rng.integers(0, 10**6))}
+    # every read that re-centres or re-derives geometry for an export (projected / uncached builds), followed by every plain attribute
+    # read, on closed meshes that certainly have faces on the antimeridian AND on the shifted seam of the projection
+    special = [nm for nm in names if any(t in nm for t in ("robinson", "mollweide", "nocache"))]
+    attrs = [nm for nm in names if nm.startswith("attr:")]
+    sp_pairs = [[a, b, 0] for a in special for b in attrs]
+    for mi, md in enumerate(({"family": "cubed_sphere", "ne": 3, "ops": []}, {"family": "voronoi", "n": 40, "seed": 808, "ops": []})):
+        for lo in range(0, len(sp_pairs), chunk):
+            yield {"kind": "pairs", "pairs": sp_pairs[lo:lo + chunk], "mesh": md, "mesh_b": md, "source": SOURCES[(mi + lo // chunk) % 4], "source_b": SOURCES[0], "sseed": 808 + lo}
     nh = 100 if tier == "quick" else 8000
     for i in range(nh):
         L = int(rng.integers(3, 26))
